@@ -326,6 +326,23 @@ theorem recursive_AInv (fuel : Nat) :
     | imp i => unfold callCap; exact ihR _ q none (put_AInv s q a h hq)
     | err => unfold callCap; exact ihR _ q none (put_AInv s q a h hq)
 
+theorem cancelHeld_AInv (n : Nat) (s : RS) (acc : List Out) (ks : List Nat) (h : AInv s) :
+    AInv (cancelHeld true n s acc ks).1 := by
+  induction n generalizing s acc ks with
+  | zero => unfold cancelHeld; exact h
+  | succ n ih =>
+    cases ks with
+    | nil => unfold cancelHeld; exact h
+    | cons k ks =>
+      unfold cancelHeld
+      simp only
+      apply ih
+      apply foldl_inv (fun (st : RS × List Out) => AInv st.1)
+      · exact h
+      · intro st q hst
+        exact (recursive_AInv (fuelOf0 st.1)).1 st.1 q none hst
+
+
 /-! ## one event -/
 
 theorem abortCall_AInv (s : RS) (q : Nat) (imps : List Nat) : AInv (abortCall true s q imps).1 := by
@@ -486,7 +503,7 @@ theorem step_AInv (s : RS) (e : Ev) (h : AInv s) : AInv (step true s e).1 := by
               exact this.1 hrs
             split
             · exact hd
-            · exact shutdown_AInv true _ true hd
+            · exact shutdown_AInv true _ true (cancelHeld_AInv _ _ _ _ hd)
     | release id n =>
       simp only
       split
@@ -512,22 +529,6 @@ theorem step_AInv (s : RS) (e : Ev) (h : AInv s) : AInv (step true s e).1 := by
             rw [ha] at this; exact this
           · exact hR _ q _ (AInv_congr _ _ rfl h)
     | close => exact shutdown_AInv true s true h
-
-theorem cancelHeld_AInv (n : Nat) (s : RS) (acc : List Out) (ks : List Nat) (h : AInv s) :
-    AInv (cancelHeld true n s acc ks).1 := by
-  induction n generalizing s acc ks with
-  | zero => unfold cancelHeld; exact h
-  | succ n ih =>
-    cases ks with
-    | nil => unfold cancelHeld; exact h
-    | cons k ks =>
-      unfold cancelHeld
-      simp only
-      apply ih
-      apply foldl_inv (fun (st : RS × List Out) => AInv st.1)
-      · exact h
-      · intro st q hst
-        exact (recursive_AInv (fuelOf st.1)).1 st.1 q none hst
 
 theorem stepTop_AInv (s : RS) (e : Ev) (h : AInv s) : AInv (stepTop true s e).1 := by
   unfold stepTop
